@@ -27,12 +27,12 @@ CHECKS = {
              "load_signal returns exactly the changes whose chunk stream the signal recorded; and C04_vcd_block_roundtrip: a fresh multi-bit signal that receives ANY sequence of VCD value tokens at non-decreasing time indices is loaded back, "
              "after finish_block, as one entry per token at its time index (end to end through add_vcd_change, finish_signal, the offset table, the meta word and load_fixed_len_signal), and C04_vcd_block_values: each of these entries decodes to the kind and the symbols of its token; C04_single_block_load_reals / _strings, C04_multi_block_load (ANY number of blocks: the loaded signal is the concatenation of the per-block changes with the time indices shifted by the earlier blocks' table lengths, aligned to the widest kind), C04_vcd_onebit_block_roundtrip (scalar tokens, compact entries) and C04_raw_block_roundtrip: the same end-to-end statement for the pre-encoded path the GHW loader uses, "
              "with C04_compress_is_repack (compress_template = the slicing core repack, whose symbol-level meaning is C13_minimal_repack); "
-             "END TO END C04_store_refines_spec: Store (encoder bookkeeping, roll-over, finish, offsets, meta, loader) = Spec.run for VCD vector signals, all histories and block sizes. "
+             "END TO END C04_store_refines_spec / C04_store_refines_spec_all: Store (encoder bookkeeping, roll-over, finish, offsets, meta, loader) = Spec.run for vectors, one-bit signals, reals and strings, all histories and block sizes. "
              "The executable Lean model of Encoder/SignalEncoder/Reader (Model/Store.lean) and the abstract Spec.run are compared with the real store "
              "on generated histories covering every regime of the quantifier (widths, state orders, payload sizes around 32 bytes, 65535-multiples, splits).",
         design_ref="DESIGN.md section 5 / C04",
-        note="Proved end to end (C04_store_refines_spec): for VCD vector signals of two or more bits, every history, every block size and every compression decision, the finished store has the time table of Spec.run and load_signal returns exactly Spec.run's change list "
-             "(simulation of the encoder incl. block roll-over against the specification, multi-block load, loader de-duplication = canon). Proved per block, composed across blocks by the differential run only: one-bit signals, reals, strings, the pre-encoded (GHW) write path, and Encoder::append. "
+        note="Proved end to end (C04_store_refines_spec, C04_store_refines_spec_all): for every signal type of the VCD write path (vectors, one-bit signals, reals, strings), every history, every block size and every compression decision, the finished store has the time table of Spec.run and load_signal returns exactly Spec.run's change list "
+             "(simulation of the encoder incl. block roll-over against the specification, multi-block load, loader de-duplication = canon). Proved per block, composed across blocks by the differential run only: the pre-encoded (GHW) write path add_n_bit_change, and Encoder::append. "
              "lz4_flex is not modelled (compress = id in the model; the compression decision is an arbitrary predicate); the theorem assumes no block larger than 2^36 bytes (32-bit compressed-length field). Trusted: Lean kernel, table translator vf/tables.py, harness, generators.",
     ),
     "C02": dict(
